@@ -322,6 +322,10 @@ inductive Extra
   | badProp    -- a property whose setter raises AttributeError
   /-- a ForeignKey given by object (`x=obj`, not a plain setter): `setattr` writes the column at once -/
   | fk (col : Nat) (v : Val)
+  /-- a column inherited from an ancestor class `p` (InheritableSQLObject): not a plain setter of the
+      child, so `set()` hands it to `setattr`, which assigns it on the ancestor's instance — validated
+      there and written by its own UPDATE of the ancestor's row -/
+  | parentAttr (p col : Nat) (v : In)
   deriving DecidableEq, Repr
 
 /-- per column, in keyword order: `from_python`, then `to_python` — both before any statement -/
@@ -341,7 +345,8 @@ def extras (sch : Schema) (c id : Nat) (ex : List Extra) (k : Prog) : Prog :=
     | .unknown => .fail .typeError
     | .badProp => .fail .attrError
     | .okProp => acc
-    | .fk col v => attrProg sch c id col v acc) k
+    | .fk col v => attrProg sch c id col v acc
+    | .parentAttr p col v => .validate v.fromOk (.validate v.toOk (attrProg sch p id col v.val acc))) k
 
 /-- the same loop while creating (nothing is written before the INSERT) -/
 def extrasPure (ex : List Extra) (k : Prog) : Prog :=
